@@ -200,6 +200,9 @@ def render_tree_c(tokens, idx):
 
 def _job(a):
     unc, tmp, i, src, lang, m1, cfgname, cfgtext = a
+    if lang == "JAVA":
+        # 'while(1)' is a request for C syntax: not a configuration one can ask of a Java program
+        cfgtext = cfgtext.replace("mod_infinite_loop=4", "mod_infinite_loop=2").replace("mod_infinite_loop=5", "mod_infinite_loop=3")
     cfg = os.path.join(tmp, "k%d.cfg" % i)
     obs.write(cfg, cfgtext)
     out = os.path.join(tmp, "o%d%s" % (i, EXT[lang]))
@@ -427,7 +430,8 @@ def run(ctx):
     if evs:
         ctx.sample({"history": evs[0]})
     ctx.assumptions += ["meaning = object code of gcc/g++ -S -O1 -g0 (clang for ObjC, javac -g:none for Java) with .file/.ident stripped",
-                        "debug_*, lexer-redefining and file-inserting options are excluded as the statement says (cfggen.NOT_ANY)"]
+                        "debug_*, lexer-redefining and file-inserting options are excluded as the statement says (cfggen.NOT_ANY)",
+                        "mod_infinite_loop=4/5 (the integer forms 'while(1)') is replaced by 2/3 for the Java program"]
 
 
 def replay(path):
